@@ -316,6 +316,11 @@ func simpler(t *TypeJ, v *ValJ) []ValJ {
 		if len(v.S) > 1 {
 			out = append(out, sval(string(v.S[:len(v.S)/2])), sval(string(v.S[len(v.S)/2:])))
 		}
+		if len(v.S) > 2 && len(v.S) <= 24 { // a failure may need two characters that are not neighbours: drop one byte
+			for i := range v.S {
+				out = append(out, sval(string(v.S[:i])+string(v.S[i+1:])))
+			}
+		}
 	case u.K == "ptr":
 		if !v.Nil && v.P != nil {
 			for _, s := range simpler(u.Elem, v.P) {
